@@ -27,7 +27,8 @@ TIE_A = (["Norm."] + [f"Term.{c}.membership" for c in MONO + NONMONO] + [f"Term.
             "code:fuzzylite.defuzzifier.WeightedSum.defuzzify",
             "code:fuzzylite.term.Linear.membership", "code:fuzzylite.term.Constant.membership",
             "code:fuzzylite.term.Term.update_reference", "code:fuzzylite.term.Linear.update_reference",
-            "code:fuzzylite.term.Aggregated.range", "code:fuzzylite.term.Aggregated.highest_activated_term"])
+            "code:fuzzylite.term.Aggregated.range", "code:fuzzylite.term.Aggregated.highest_activated_term",
+            "code:fuzzylite.defuzzifier.WeightedDefuzzifier.infer_type"])
 RULE = ("WeightedAverage and WeightedSum x {Automatic, TakagiSugeno, Tsukamoto} x fuzzy outputs of 0-6 activations over 1-4 "
         "terms (Constant / Linear / Function(polynomial in x) / monotonic Ramp, Sigmoid, Concave, SShape, ZShape / non-monotonic "
         "Triangle, Trapezoid, Rectangle, Gaussian, Bell) with repetitions x every S-norm or none x scalar and batch degrees "
